@@ -17,8 +17,7 @@ hs = [H("verifC10Triples2x64", tr + "2 parties, batch 64, every start order"),
       H("verifC10Wide2x70g", on + "2 parties, one level of 70 AND gates (batch not a multiple of 64, two words) + second AND level fed from both words; 8 outputs each the xor of a residue class of the 70 gates")]
 hs.append(H("verifC10Wide2x64g", on + "2 parties, one level of exactly 64 AND gates (batch = one full word) + second AND level; grouped outputs"))
 if tier != "quick":
-    hs += [H("verifC10Wide2x128g", on + "2 parties, one level of exactly 128 AND gates (two full words), grouped outputs"),
-           H("verifC10Wide3x64g", on + "3 parties, one level of exactly 64 AND gates, grouped outputs"),
+    hs += [H("verifC10Wide3x64g", on + "3 parties, one level of exactly 64 AND gates, grouped outputs"),
            H("verifC10Run2o", on + "2 parties, 3 gates with arbitrary ops, every start order of the parties"),
            H("verifC10Run3g4", on + "3 parties x 2 input bits, 4 gates with arbitrary ops (256 circuits)"),
            H("verifC10Triples3x64o", tr + "3 parties, batch 64, every start order (rotations, both directions)"),
